@@ -178,13 +178,13 @@ Qed.
    attributes including ORIGIN and AS_PATH *)
 Theorem local_path_wf : forall v6r fam n xs family net attrs nh,
   (forall s a, v6r s = Some a -> a < 2 ^ 128) ->
-  Forall api_in_range xs ->
+  api_nlri_in_range n -> Forall api_in_range xs ->
   local_path v6r fam n xs = Some (family, net, attrs, nh) ->
   wf_nlri net /\ Forall wf_attr attrs
   /\ existsb (fun a => a_code a =? ORIGIN) attrs = true
   /\ existsb (fun a => a_code a =? AS_PATH) attrs = true.
 Proof.
-  intros v6r fam n xs family net attrs nh Hrg Hr H. unfold local_path in H.
+  intros v6r fam n xs family net attrs nh Hrg Hn Hr H. unfold local_path in H.
   destruct (net_from_api v6r n) as [net0|] eqn:En; [|discriminate].
   destruct (lp_loop v6r _ xs [] None) as [[acc nh0]|] eqn:El; [|discriminate].
   injection H as _ <- <- _.
